@@ -2,7 +2,7 @@
 from __future__ import annotations
 
 import ast
-from typing import Any, Dict, List, Optional, Tuple
+from typing import Any, Dict, List, Optional, Set, Tuple
 
 from ..core import Ctx
 from ..interp import ALL, AttrVal, Dual, EnumVal, Event, FuncVal, Interp, LoopSummary, ModVal, PathResult, State, Tup, View, as_view, NONE
@@ -591,3 +591,117 @@ def rule_liveness(ctx: Ctx, prog: Program) -> None:
         else:
             ctx.violation("R-LIVENESS", fn.path, name, "no-liveness-exit", fn.loc(),
                           f"{name}: the only way out of the receive loop is the count of completion markers; no exit depends on whether the workers are still alive")
+
+
+# ------------------------------------------------------------------------------------------ worker-side and consumer-side lints
+DEDUP_CALLS = ("np.unique", "numpy.unique", "set", "frozenset", "dict.fromkeys")
+SOLUTION_SOURCES = ("solve", "find_all", "solve_one", "get_message", "solve_all")
+
+
+def rule_worker_threads(ctx: Ctx, prog: Program) -> None:
+    """The parent learns that a worker died from `is_alive()`.  A worker process stays alive as long as any non-daemon thread of it runs:
+    a helper thread started in the worker (periodic logging, a watchdog) that is stopped only on the normal path keeps a worker whose
+    search raised alive for ever, and the parent waits for ever.  Rule: every thread created in the solvers package is a daemon
+    (`daemon=True` at creation, or `.daemon = True` on the name it is bound to before `.start()`)."""
+    ctx.rule("R-LIVENESS")
+    n = 0
+    for f in prog.all_functions():
+        if not f.module.startswith(f"{prog.package}.solvers"):
+            continue
+        for x in ast.walk(f.node):
+            if isinstance(x, ast.Call) and ast.unparse(x.func) in ("threading.Thread", "Thread", "threading.Timer", "Timer"):
+                n += 1
+                daemon = any(k.arg == "daemon" and isinstance(k.value, ast.Constant) and k.value.value is True for k in x.keywords)
+                if not daemon:
+                    # bound to a name whose .daemon is set to True in the same function?
+                    for y in ast.walk(f.node):
+                        if isinstance(y, ast.Assign) and len(y.targets) == 1 and isinstance(y.targets[0], ast.Attribute) and y.targets[0].attr == "daemon" \
+                                and isinstance(y.value, ast.Constant) and y.value.value is True:
+                            daemon = True
+                if daemon:
+                    ctx.ok("R-LIVENESS", f"{f.qualname}: helper thread is a daemon (cannot keep a failed worker alive)")
+                else:
+                    ctx.violation("R-LIVENESS", f.path, f.qualname, "non-daemon-thread", f"{f.path}:{x.lineno}",
+                                  f"{f.qualname} starts a non-daemon thread: a process lives as long as its non-daemon threads, so a worker whose search raises "
+                                  "before the thread is told to stop never exits, `is_alive()` stays true and the parent's liveness test can never fire -- "
+                                  "the call hangs on a crashed worker")
+    ctx.ok("R-LIVENESS", f"threads created in the solvers package: {n}, all daemons" if n else "no thread is created in the solvers package", nontrivial=False)
+
+
+def rule_queue_lossless(ctx: Ctx, prog: Program) -> None:
+    """Solutions travel from the workers to the parent through a queue.  An unbounded queue never refuses a `put`; a bounded one makes the
+    producer wait -- unless the put gives up (`timeout=`, `block=False`, `put_nowait`): then a consumer that pauses makes the workers raise
+    `queue.Full` and die with solutions undelivered.  Each half is harmless alone; the rule reports the combination: a bounded queue created
+    in the solvers package together with a put that can give up."""
+    ctx.rule("R-MARKER")
+    bounded: List[Tuple[FuncInfo, ast.Call]] = []
+    timed: List[Tuple[FuncInfo, ast.Call]] = []
+    n = 0
+    for f in prog.all_functions():
+        if not f.module.startswith(f"{prog.package}.solvers"):
+            continue
+        for x in ast.walk(f.node):
+            if not isinstance(x, ast.Call):
+                continue
+            fs = ast.unparse(x.func)
+            if fs.split(".")[-1] in ("Queue", "JoinableQueue") and (x.args or any(k.arg == "maxsize" for k in x.keywords)):
+                a0 = x.args[0] if x.args else [k.value for k in x.keywords if k.arg == "maxsize"][0]
+                if not (isinstance(a0, ast.Constant) and a0.value in (0, None)):
+                    bounded.append((f, x))
+            if isinstance(x.func, ast.Attribute) and x.func.attr in ("put", "put_nowait"):
+                n += 1
+                if x.func.attr == "put_nowait" or len(x.args) >= 2 or any(k.arg in ("timeout", "block") for k in x.keywords):
+                    timed.append((f, x))
+    if bounded and timed:
+        f, x = timed[0]
+        ctx.violation("R-MARKER", f.path, f.qualname, "solution-forwarded:lossy-put", f"{f.path}:{x.lineno}",
+                      f"{f.qualname} puts on the queue with `{ast.unparse(x)[:60]}` (gives up when the queue stays full) and {bounded[0][0].qualname} creates a "
+                      f"bounded queue (`{ast.unparse(bounded[0][1])[:40]}`): when the consumer pauses the put raises queue.Full, the worker dies and the "
+                      "solutions it had not delivered are lost (the union of the parts no longer reaches the caller)")
+    else:
+        ctx.ok("R-MARKER", "no put that can give up on a bounded queue: a slow consumer delays the workers, it does not lose their solutions",
+               sample={"bounded_queues": len(bounded), "puts_that_can_give_up": len(timed), "puts": n})
+    ctx.floor("R-MARKER:queue-puts", n, 3)
+
+
+def rule_no_dedup(ctx: Ctx, prog: Program) -> None:
+    """The answer of an enumeration is a multiset: two solutions that agree on every variable (they differ on a shared domain no variable
+    shows) are two solutions for the sequential solver and for the counter SOLVER_SOLUTION_NB.  A solver method that passes what it
+    collected through a set-like operation (np.unique, set, dict.fromkeys) returns fewer.  Rule: in the solvers package no value that
+    comes from solve / find_all / solve_one / the message queue reaches such an operation."""
+    ctx.rule("R-MARKER")
+    n = 0
+    for f in prog.all_functions():
+        if not f.module.startswith(f"{prog.package}.solvers") or f.njit:
+            continue
+        tainted: Set[str] = set()
+        for _ in range(3):
+            for x in ast.walk(f.node):
+                tg: List[ast.expr] = []
+                val: Optional[ast.expr] = None
+                if isinstance(x, ast.Assign):
+                    tg, val = list(x.targets), x.value
+                elif isinstance(x, (ast.For, ast.comprehension)):
+                    tg, val = [x.target], x.iter
+                elif isinstance(x, ast.NamedExpr):
+                    tg, val = [x.target], x.value
+                if val is None:
+                    continue
+                src = any(isinstance(y, ast.Call) and ((isinstance(y.func, ast.Attribute) and y.func.attr in SOLUTION_SOURCES) or (isinstance(y.func, ast.Name) and y.func.id in SOLUTION_SOURCES))
+                          for y in ast.walk(val)) or any(isinstance(y, ast.Name) and y.id in tainted for y in ast.walk(val))
+                if src:
+                    for t in tg:
+                        for y in ast.walk(t):
+                            if isinstance(y, ast.Name):
+                                tainted.add(y.id)
+        for x in ast.walk(f.node):
+            if isinstance(x, ast.Call) and ast.unparse(x.func) in DEDUP_CALLS:
+                n += 1
+                hit = any((isinstance(y, ast.Name) and y.id in tainted) or (isinstance(y, ast.Call) and isinstance(y.func, ast.Attribute) and y.func.attr in SOLUTION_SOURCES)
+                          for a in list(x.args) for y in ast.walk(a))
+                if hit:
+                    ctx.violation("R-MARKER", f.path, f.qualname, "solution-forwarded:deduplicated", f"{f.path}:{x.lineno}",
+                                  f"{f.qualname} passes the solutions it collected through `{ast.unparse(x.func)}`: equal rows are merged, so two solutions that agree on "
+                                  "every variable (they differ on a shared domain no variable shows) come back as one -- fewer than the sequential solver "
+                                  "yields and than SOLVER_SOLUTION_NB counts")
+    ctx.ok("R-MARKER", "no solver method passes collected solutions through a set-like operation", sample={"set_like_calls_seen": n}, nontrivial=False)
